@@ -91,3 +91,19 @@ def _dur_as(ex, p, m, a, func, fr):
     if op == 'subsec_millis':
         return one((z3.UDiv(n, bvv(1000000, 32)), 'u32'))
     return one((z3.ZeroExt(64, s) * bvv(1000, 128) + z3.ZeroExt(96, z3.UDiv(n, bvv(1000000, 32))), 'u128'))
+
+
+@model(r'^(?:std::time::)?SystemTime::(checked_add|checked_sub)$')
+def _st_checked(ex, p, m, a, func, fr):
+    x = B(ex, p, a[0]) if isinstance(a[0], Ref) else a[0]
+    (s, _), (n, _) = x.fields
+    (ds, _), (dn, _) = a[1].fields
+    if m.group(1) == 'checked_add':
+        carry = z3.UGE(n + dn, NS)
+        ns = z3.If(carry, s + ds + 1, s + ds)
+        ok = z3.And(ds >= 0, z3.BVAddNoOverflow(s, ds, True), ns >= s)
+        return [dict(cond=ok, value=opt_some(inst(ns, z3.If(carry, n + dn - NS, n + dn)))), dict(cond=z3.Not(ok), value=opt_none())]
+    borrow = z3.ULT(n, dn)
+    ns = z3.If(borrow, s - ds - 1, s - ds)
+    ok = z3.And(ds >= 0, z3.BVSubNoUnderflow(s, ds, True), ns <= s)
+    return [dict(cond=ok, value=opt_some(inst(ns, z3.If(borrow, n + NS - dn, n - dn)))), dict(cond=z3.Not(ok), value=opt_none())]
